@@ -2,6 +2,7 @@ package main
 
 import (
 	"fmt"
+	"go/constant"
 	"go/token"
 	"sort"
 
@@ -251,4 +252,148 @@ func init() {
 	txt := "content copied into its place arrives completely: at every copy(dst, src) on the writing side len(dst) >= len(src) is proven from slice bounds, allocation sizes and dominating tests (an overwrite whose window is one byte short keeps the old last byte and reports success); copies that are not decided are frozen per function and only growth is reported"
 	registry["C02"].Meta.Rules["C02.11"] = txt
 	registry["C02"].Rules = append(registry["C02"].Rules, func(c *Ctx, r *Result) { copyCompleteRule(c, r, "C02.11") })
+}
+
+// accumulatedFlag: v is a boolean that a loop starts at k0 and can only flip to !k0 (found/clipped flags). Returns k0.
+func accumulatedFlag(v ssa.Value) (bool, bool) {
+	phi, ok := v.(*ssa.Phi)
+	if !ok {
+		return false, false
+	}
+	var k0 *bool
+	seen := map[*ssa.Phi]bool{}
+	var consts []bool
+	var walk func(p *ssa.Phi, top bool) bool
+	walk = func(p *ssa.Phi, top bool) bool {
+		if seen[p] {
+			return true
+		}
+		seen[p] = true
+		for i, e := range p.Edges {
+			switch x := e.(type) {
+			case *ssa.Const:
+				if x.Value == nil || x.Value.Kind() != constant.Bool {
+					return false
+				}
+				b := constant.BoolVal(x.Value)
+				if top && !p.Block().Dominates(p.Block().Preds[i]) {
+					k0 = &b // the value on entry to the loop
+				} else {
+					consts = append(consts, b)
+				}
+			case *ssa.Phi:
+				if !walk(x, false) {
+					return false
+				}
+			default:
+				return false
+			}
+		}
+		return true
+	}
+	if !walk(phi, true) || k0 == nil || len(consts) == 0 {
+		return false, false
+	}
+	for _, b := range consts {
+		if b == *k0 {
+			return false, false
+		}
+	}
+	return *k0, true
+}
+
+// c05rowPlacement: the data of a clipped boundary chunk reaches the nominal buffer row by row.
+func c05rowPlacement(c *Ctx, r *Result, rule string) {
+	fn := c.FnOpt("hdf5.expandEdgeChunk")
+	if fn == nil {
+		r.Shortfall(c, rule, rule+": expandEdgeChunk not found")
+		return
+	}
+	var nominal *ssa.Parameter
+	for _, p := range fn.Params {
+		if p.Name() == "nominal" {
+			nominal = p
+		}
+	}
+	if nominal == nil && len(fn.Params) >= 3 {
+		nominal = fn.Params[2]
+	}
+	fb := c.FB(fn)
+	n := 0
+	instrs(fn, func(in ssa.Instruction) {
+		call, ok := in.(*ssa.Call)
+		if !ok {
+			return
+		}
+		if b, isB := call.Call.Value.(*ssa.Builtin); !isB || b.Name() != "copy" {
+			return
+		}
+		dst := call.Call.Args[0]
+		var low ssa.Value
+		base := dst
+		for {
+			if s, isS := base.(*ssa.Slice); isS {
+				if s.Low != nil {
+					low = s.Low
+				}
+				base = s.X
+				continue
+			}
+			break
+		}
+		if _, isMk := base.(*ssa.MakeSlice); !isMk {
+			return
+		}
+		n++
+		cons := fmt.Sprintf("%s#copy-into-nominal-buffer-%d", c.Name(fn), n)
+		if low != nil && dataParamsOpt(low, false)[nominal] {
+			r.Hold(rule, cons, c.InstrPos(call), "the destination offset is computed from the nominal chunk dimensions")
+			return
+		}
+		// a bulk copy is right only when nothing but the slowest dimension is clipped: one dimension, or a flag that a loop
+		// over the dimensions left untouched
+		if fb.ProveGE0At(linConst(1).add(fb.lenLin(nominal), -1), call) {
+			r.Hold(rule, cons, c.InstrPos(call), "bulk copy for a one-dimensional chunk")
+			return
+		}
+		okFlag := false
+		for _, b := range fn.Blocks {
+			ifi, isIf := b.Instrs[len(b.Instrs)-1].(*ssa.If)
+			if !isIf {
+				continue
+			}
+			cond, neg := ifi.Cond, false
+			for {
+				u, isNot := cond.(*ssa.UnOp)
+				if !isNot || u.Op != token.NOT {
+					break
+				}
+				cond, neg = u.X, !neg
+			}
+			k0, isFlag := accumulatedFlag(cond)
+			if !isFlag {
+				continue
+			}
+			// successor on which the flag still has its initial value
+			idx := 1
+			if k0 != neg {
+				idx = 0
+			}
+			if edgeDominates(b, b.Succs[idx], call.Block()) {
+				okFlag = true
+			}
+		}
+		r.Check(okFlag, rule, cons, c.InstrPos(call), "a copy of the clipped data in one piece is guarded by a flag that a loop over the dimensions left at its initial value (rows of a clipped chunk are shorter than nominal rows: copied in one piece, every row after the first lands at the wrong offset)")
+	})
+	if n == 0 {
+		r.Shortfall(c, rule, rule+": no copy into the nominal buffer found in expandEdgeChunk")
+	}
+}
+
+func init() {
+	txt := "the data of a clipped boundary chunk is placed into the nominal chunk buffer row by row: in expandEdgeChunk every copy into the new buffer has a destination offset computed from the nominal dimensions; a copy in one piece is accepted only for one dimension or behind a flag that a loop over the dimensions left untouched"
+	registry["C05"].Meta.Rules["C05.13"] = txt
+	registry["C05"].Rules = append(registry["C05"].Rules, func(c *Ctx, r *Result) { c05rowPlacement(c, r, "C05.13") })
+	registry["C01"].Meta.Rules["C01.13"] = txt + " (shared with C05.13)"
+	registry["C01"].Rules = append(registry["C01"].Rules, func(c *Ctx, r *Result) { c05rowPlacement(c, r, "C01.13") })
 }
